@@ -133,7 +133,8 @@ class Ctx:
             "rule": "one evaluation = one rule instance (a call site, a table row, a path obligation, a "
                     "layout/constant assertion) decided from the MIR/layout facts of the current tree; "
                     "non-trivial = the rule had a concrete site to decide (distinct by rule/instance key)",
-            "samples": self.samples or [{"note": "no instance sampled"}],
+            "samples": self.samples or [{"rule": r, "instance": k, "held": o, "detail": d} for (r, k, o, d) in self.instances if d][:12]
+            or [{"rule": r, "instance": k, "held": o} for (r, k, o, d) in self.instances][:12] or [{"note": "no instance sampled"}],
             "rules": self.rules_run,
             "instances_per_rule": self.counts,
             "floors": self.floors,
